@@ -805,6 +805,8 @@ def stub_of(ct, env, solver, record=True):
         for g in ct.post(env, old):
             c.assume_goal(g)
         env.log.append(("call", ct.name))
+        if ct.name == "_compute_powertrain_variables" and "locked_at_first_instant" not in env.ghost:
+            env.ghost["locked_at_first_instant"] = old["locked"]
         if ct.name == "_compute_load_torque":
             # exceptional outcome of the contract: TypeError when a load function returns a non-Torque
             bad = c.boolean(c.fresh_name("load-fn-bad"), is_input=False)
@@ -883,7 +885,7 @@ def pinst(env, old, mid_pwm_in_force):
     n, st = env.n, env.state
     out = []
     out.append(("coupling:pos,spd,acc", L.Forall(0, n - 1, lambda j: z3.And(coupling(env, "pos", j), coupling(env, "spd", j),
-                                                                             coupling(env, "acc", j)), name="jc"), ("C01",)))
+                                                                             coupling(env, "acc", j)), name="jc"), ("C01", "C07")))
     out.append(("coupling:last-element-position-unchanged", same_at(env, "pos", n - 1, old), ("C01", "C03")))
     out.append(("coupling:last-element-speed-unchanged-unless-held(then 0)",
                 z3.If(st["locked"], env.si("spd", n - 1) == 0, same_at(env, "spd", n - 1, old)), ("C03", "C13")))
@@ -905,16 +907,16 @@ def pinst(env, old, mid_pwm_in_force):
     out.append(("lock:self_locking-flag-unchanged", st["self_locking"] == old["self_locking"], ("C13",)))
     # C02
     out.append(("load:load-function-at-recorded-position-speed-time;propagated-upstream",
-                L.Forall(1, n, lambda j: load_rel(env, j), name="jt"), ("C02",)))
+                L.Forall(1, n, lambda j: load_rel(env, j), name="jt"), ("C02", "C07")))
     out.append(("control:duty-cycle-in-[-1,1]", z3.And(st["pwm"] >= -1, st["pwm"] <= 1), ("C14",)))
     out.append(("drive:motor-characteristic-at-recorded-speed-and-duty-cycle",
-                env.si("Td", 0) == motor_law(env, st["pwm"], env.si("spd", 0)), ("C02", "C08")))
+                env.si("Td", 0) == motor_law(env, st["pwm"], env.si("spd", 0)), ("C02", "C08", "C07")))
     out.append(("drive:propagated-downstream-by-efficiency-and-ratio",
-                L.Forall(1, n, lambda j: env.si("Td", j) == env.si("Td", j - 1) * Sel(st["eff"], j) * Sel(st["ratio"], j), name="jd"), ("C02",)))
-    out.append(("net:torque=driving-load", L.Forall(0, n, lambda j: env.si("T", j) == env.si("Td", j) - env.si("Tl", j), name="jn"), ("C02",)))
+                L.Forall(1, n, lambda j: env.si("Td", j) == env.si("Td", j - 1) * Sel(st["eff"], j) * Sel(st["ratio"], j), name="jd"), ("C02", "C07")))
+    out.append(("net:torque=driving-load", L.Forall(0, n, lambda j: env.si("T", j) == env.si("Td", j) - env.si("Tl", j), name="jn"), ("C02", "C07")))
     # C03
     out.append(("motion:not-held=>acceleration=net-torque/equivalent-inertia",
-                z3.Implies(z3.Not(st["locked"]), env.si("acc", n - 1) * Jred(env)(n - 1) == env.si("T", n - 1)), ("C03",)))
+                z3.Implies(z3.Not(st["locked"]), env.si("acc", n - 1) * Jred(env)(n - 1) == env.si("T", n - 1)), ("C03", "C07")))
     # derived
     g = env.iface.g_force
     out.append(("derived:force-from-final-torques",
@@ -941,7 +943,7 @@ PINST_FRAME = ("pos", "spd", "acc", "T", "Td", "Tl", "force", "bend", "contact",
 class Vars(Contract):
     name = "_compute_powertrain_variables"
     frame = PINST_FRAME
-    props = ("C01", "C02", "C03", "C13", "C14", "C16", "C17")
+    props = ("C01", "C02", "C03", "C13", "C14", "C16", "C17", "C07")
 
     def pre(self, env):
         return vars_pre(env)
@@ -1116,7 +1118,7 @@ def inv_run(env, i, entry):
 
 
 def job_run(fresh, with_stop, with_control):
-    props = ("C01", "C02", "C03", "C11", "C12", "C13", "C14", "C16", "C17")
+    props = ("C01", "C02", "C03", "C11", "C12", "C13", "C14", "C16", "C17", "C07")
 
     def body(c, O):
         if c.concrete:
@@ -1196,8 +1198,12 @@ def job_run(fresh, with_stop, with_control):
                     props=("C11", "C16", "C17"), note=f"{pre_calls}")
             O.prove("fresh:time-starts-at-0", z3.And(e["tlen"] == 1, e["tlast_val"] == 0),
                     props=("C11",))
-            # C12(b): a rerun after reset must not see the previous run's lock state
+            # C12 (reset/rerun with the same solver object): the first instant of a fresh run must not see the lock state
+            # an earlier run left behind (Powertrain.reset cannot clear it: it lives in the Solver)
             first_vars_locked = g.get("locked_at_first_instant")
+            O.prove("fresh:lock-state-of-an-earlier-run-is-not-carried-into-a-fresh-run",
+                    L.Via([z3.Implies(z3.Not(old["self_locking"]), z3.Not(old["locked"]))],
+                          z3.Not(first_vars_locked)) if first_vars_locked is not None else False, props=("C12", "C13"))
         else:
             O.prove("continuation:no-re-initialisation(only the equivalent inertia is recomputed)",
                     pre_calls == ["_compute_powertrain_inertia"], props=("C12",), note=f"{pre_calls}")
@@ -1210,9 +1216,9 @@ def job_run(fresh, with_stop, with_control):
         t0 = e["tlast_val"]                                                # SI time of the last instant before the loop
         fdt = env.fac("Time", AM.unit_idx("Time", dt.unit))
         pos = [fdt > 0, DT > 0, TT > 0]
-        O.prove("grid:step-is-dt", L.Via(pos, ar.step * fdt == DT), props=("C11", "C07"))
-        O.prove("grid:first-new-instant-is-previous+dt(SI)", L.Via(pos, ar.start * fdt == t0 + DT), props=("C11", "C12", "C07"))
-        O.prove("grid:stop-is-previous+T+dt(SI)", L.Via(pos, ar.stop * fdt == t0 + TT + DT), props=("C11", "C12", "C07"))
+        O.prove("grid:raw-step*unit=dt(SI)", L.Via(pos, ar.step * fdt == DT), props=("C11", "C07"))
+        O.prove("grid:raw-first-new-instant*unit=previous+dt(SI)", L.Via(pos, ar.start * fdt == t0 + DT), props=("C11", "C12", "C07"))
+        O.prove("grid:raw-stop*unit=previous+T+dt(SI)", L.Via(pos, ar.stop * fdt == t0 + TT + DT), props=("C11", "C12", "C07"))
         Nr = z3.ToReal(ar.N)
         K = z3.Int("Ksteps")
         exactN = z3.And(K >= 1, TT == z3.ToReal(K) * DT)
